@@ -402,3 +402,36 @@ func H_C05_in_message_brackets() {
 	vAssert(vRuleViolated(Include, "include=(ow/igh)|"+msg, v) == wantInc, "C05 include: the option list ends at its own bracket, whatever the message contains")
 	vReach("end")
 }
+
+// ints on slices and arrays of numbers: "every value is matched" against the integer pattern, so an
+// element whose decimal text is not a run of digits (a negative number, a fraction) violates the rule
+func H_C05_ints_number_slices() {
+	ints := []int{-128, -2, -1, 0, 1, 7, 127}
+	a, b, c := ints[vndChoice("a", len(ints))], ints[vndChoice("b", len(ints))], ints[vndChoice("c", len(ints))]
+	neg := a < 0 || b < 0 || c < 0
+	switch vndChoice("kind", 8) {
+	case 0:
+		vAssert(vRuleViolated(Ints, "ints", []int{a, b, c}) == neg, "C05 ints: []int, every element must be a run of digits")
+	case 1:
+		vAssert(vRuleViolated(Ints, "ints", []int8{int8(a), int8(b)}) == (a < 0 || b < 0), "C05 ints: []int8")
+	case 2:
+		vAssert(vRuleViolated(Ints, "ints", [3]int64{int64(a), int64(b), int64(c)}) == neg, "C05 ints: [3]int64")
+	case 3:
+		vAssert(vRuleViolated(Ints, "ints", []int32{int32(c)}) == (c < 0), "C05 ints: []int32 of one element")
+	case 4:
+		vAssert(!vRuleViolated(Ints, "ints", []uint8{uint8(a), uint8(b)}), "C05 ints: unsigned elements are always runs of digits")
+	case 5:
+		fs := []float64{1, 1.5, -1, 0, 1e21, 0.25}
+		f, g := fs[vndChoice("f", len(fs))], fs[vndChoice("g", len(fs))]
+		bad := func(x float64) bool { return x == 1.5 || x == -1 || x == 0.25 }
+		vAssert(vRuleViolated(Ints, "ints", []float64{f, g}) == (bad(f) || bad(g)), "C05 ints: []float64, whole non-negative values only")
+	case 6:
+		type vIntsS struct{ F []int64 }
+		err := Struct(&vIntsS{[]int64{int64(a), int64(b)}}, NewRule().Set("F", "ints"))
+		vAssert((err != nil) == (a < 0 || b < 0), "C05 ints: []int64 field through Struct")
+	case 7:
+		err := Var([]int{a, b, c}, "ints")
+		vAssert((err != nil) == neg, "C05 ints: []int through Var")
+	}
+	vReach("end")
+}
